@@ -35,7 +35,9 @@ def g_op(o):
     if k == 'mark':
         return 'OMark ' + g_handle(o['hd'])
     if k == 'sweep':
-        return 'OSweep ' + g_nat(o['n'])
+        # the model's sweep clamps the end of the slice to the table length (below 20 000 in every generated history), so a
+        # larger work unit is the same operation; huge units (usize::MAX) are passed to the model as 20 000
+        return 'OSweep ' + g_nat(min(o['n'], 20000))
     raise ValueError(k)
 
 
@@ -140,7 +142,7 @@ def run(tier, seed, replay=None):
             ck.obligation('harness-run', False, out[-500:])
         hists += [json.loads(l) for l in out.splitlines() if l.startswith('{')]
     ck.rule = ('histories of 3..N operations over a pool of 12 long and 8 short strings (incl. 15/16-byte boundary and '
-               'multi-byte UTF-8), sweep work units from {0,1,2,3,len/2,len,len+7,10000}; distinct = distinct raw op '
+               'multi-byte UTF-8), sweep work units from {0,1,2,3,len/2,len,len+7,10000,usize::MAX}; distinct = distinct raw op '
                'lists; non-trivial = at least one table allocation and one sweep or mark')
     for h in hists:
         kinds = [o['op'] for o in h['raw_ops']]
